@@ -96,6 +96,13 @@ def check_circuit(recipe, env, maxph, acc, late=False):
                             or rr[si, lw.State(list(o))] != a:
                         acc.violation("amplitude_explicit_output", {**base, "input": i, "output": o},
                                       {"impl": complex(a)})
+                if len(outs) >= 2:        # the same output named twice: every column is the amplitude of ITS state
+                    rep = [outs[0], outs[-1], outs[0], outs[1]]
+                    rr = sim.simulate(si, [lw.State(list(o)) for o in rep])
+                    acc.tick("executions"); acc.tick("transitions")
+                    w = [ref_amp(uf, hin, hout, n_loss, i, o) for o in rep]
+                    if rr.array.shape != (1, 4) or np.abs(rr.array[0] - w).max() > TOL:
+                        acc.violation("explicit_output_order", {**base, "input": i, "outputs": rep, "repeated": True}, None)
                 sel = outs[::-1][:3]
                 rr = sim.simulate(si, [lw.State(list(o)) for o in sel])
                 acc.tick("executions"); acc.tick("transitions")
